@@ -27,7 +27,8 @@ META = {
                   "principal_angle / angle_diff congruent mod 2pi and in range, roots^n = c/|c| for the whole returned list, det_2x2 independent of the representation "
                   "(complex / array) of each column, solve_quadratic returns roots, unit_cube; the frame theorem: every function of "
                   "the five files (event table regenerated from the source) leaves argument arrays, other boxes and numpy's error "
-                  "register as found on return and on raise, boxes own fresh arrays. PARTIAL (guard named in the theorem): rotation "
+                  "register as found on return and on raise, boxes own fresh arrays, and the constructors / classmethods that promise a new "
+                  "object return nothing that outlives the call (decorators other than classmethod/staticmethod/property fail closed). PARTIAL (guard named in the theorem): rotation "
                   "additivity for angles that are 0 or outside the code's own 1e-12 cut-off; signed-angle antisymmetry when the "
                   "reference normal is not in the plane of the two vectors (C12_signed_angle_guard_is_needed shows the guard is "
                   "necessary). The model is tied to the running code by kernel-evaluated correspondence batches on call sequences "
@@ -221,6 +222,26 @@ def gen_box_prog(rng):
         nb = P.newbox()
         P.ops.append(["of_mesh", nb, [P.arr(rand_vec(rng, 3, style), "f") for _ in range(rng.choice([1, 2, 4]))],
                       rng.choice([0, 0, 0.5, 1])])
+    # TWINS: every call that returns a box, repeated with the same arguments, must return an object sharing nothing with
+    # the first one: the first result is then modified in place (pad) and the second one looked at again
+    makers = [(j, o) for j, o in enumerate(P.ops) if o[0] in ("box", "ofpts", "union", "inter", "unit_cube", "infinite", "of_mesh")]
+    if makers and rng.random() < 0.5:
+        j, o = rng.choice(makers)
+        twin = list(o)
+        twin[1] = P.newbox()
+        ok = (o[0] != "box" or P.dims.get(o[2]) == P.dims.get(o[3])) and (o[0] != "ofpts" or len(o[2]) > 0)
+        P.ops.append(twin)
+        if ok and o[0] != "infinite":
+            first, second = o[1], twin[1]
+            P.ops.append(["pad_s", first, rng.choice([0.5, 1.0, 0.25])])
+            P.ops.append(["span", second])
+            P.ops.append(["pad_s", second, rng.choice([0.5, 2.0])])
+            P.ops.append(["span", first])
+            if rng.random() < 0.5:
+                third = list(o)
+                third[1] = P.newbox()
+                P.ops.append(third)              # a call made AFTER the in-place modification
+                P.ops.append(["span", third[1]])
     return P
 
 
@@ -368,6 +389,18 @@ def gen_vec_prog(rng):
             if all(x == 0 for x in v):
                 v[0] = 1
             P.ops.append(["normalize", P.arr(v, "f"), rng.choice(KINDS)])
+        elif r2 < 0.40:
+            # a Vec constructor called twice: the results share nothing; write into the first, look at the second
+            nm = rng.choice(["zeros", "X", "Y", "Z", "random"])
+            n = rng.choice([1, 2, 3, 4]) if nm in ("zeros", "random") else 3
+            sa, sb = P.na, P.na + 1
+            P.na += 2
+            P.dims[sa] = P.dims[sb] = n
+            P.ops.append(["vec_ctor", nm, n, sa, sb])
+            P.ops.append(["setcomp", sa, rng.randrange(n), float(rng.choice([2, -1, 0.5]))])
+            P.ops.append(["fn", "vnorm", [sb], "l2", [], ["a"]])
+            if n == 3 and nm != "random":
+                P.ops.append(["fn", "cross", [sa, sb], None, [], draw_reps(rng, "cross", 2)])
     return P
 
 
@@ -459,6 +492,12 @@ def op_term(op, ob):
         return "(OInfinite %s %s)" % (zlit(op[1]), zlit(op[2]))
     if k == "of_mesh":
         return "(OOfMesh %s %s %s)" % (zlit(op[1]), zlist(op[2]), q(op[3]))
+    if k == "vec_ctor":
+        code = {"zeros": 0, "X": 1, "Y": 2, "Z": 3}.get(op[1], 9)
+        va, vb = (ob["r"][1] if ob["exc"] is None and ob["r"][0] == "vs" else [[], []])
+        return "(OVecCtor %s %s %s %s %s %s)" % (zlit(code), zlit(op[2]), zlit(op[3]), zlit(op[4]), qvec(va), qvec(vb))
+    if k == "setcomp":
+        return "(OSetComp %s %s %s)" % (zlit(op[1]), zlit(op[2]), q(op[3]))
     if k == "normalize":
         after = ob["r"][1] if ob["exc"] is None and ob["r"][0] == "v" and finite(ob["r"][1]) else None
         if after is None:
@@ -505,6 +544,8 @@ def ill_conditioned(op, A):
 def robs_term(op, ob, skip=False):
     if skip or op[0] == "infinite" or (op[0] == "fn" and op[1] == "axis_rot_from_z" and ob["exc"] is None):
         return "RSkip"
+    if op[0] == "vec_ctor" and ob["exc"] is None and ob["r"][0] == "vs":
+        return "(RVQ %s)" % qvec(ob["r"][1][0] + ob["r"][1][1])
     if op[0] == "normalize":
         if ob["exc"] is None and ob["r"][0] == "v" and finite(ob["r"][1]):
             return "(RVF %s)" % fvec(ob["r"][1])
@@ -619,6 +660,17 @@ def oracle_prog(prog, obs):
             continue
         if k == "seterr":
             continue
+        if k == "setcomp":
+            others = [c for c in ob["arrchg"] if c[0] != op[1]] + list(ob["boxchg"])
+            if others:
+                bad(i, "effects/shared-buffer", "the caller wrote one component of array %d and %s changed too: a constructor handed out a shared buffer"
+                    % (op[1], [c[0] for c in others]))
+            if ob["alias"]:
+                bad(i, "effects/alias", "after %s: %s share memory" % (k, ob["alias"][:4]))
+            v = list(A[op[1]])
+            v[int(op[2])] = Fr(op[3])
+            A[op[1]] = v
+            continue
         name = op[1] if k == "fn" else k
         exc = ob["exc"]
         r = ob["r"]
@@ -632,7 +684,7 @@ def oracle_prog(prog, obs):
         if [c for c in ob["arrchg"] if c[0] not in own]:
             bad(i, "effects/argument-array/" + name, "caller array(s) %s changed by the call: now %s" % ([c[0] for c in ob["arrchg"]], [c[1] for c in ob["arrchg"]]))
         if ob["alias"]:
-            bad(i, "effects/alias", "after %s: box corners share memory with caller arrays / other boxes: %s" % (name, ob["alias"][:4]))
+            bad(i, "effects/alias", "after %s: objects that must be distinct share memory (box corner ~ caller array / other box, or two constructor results): %s" % (name, ob["alias"][:4]))
         allowed = {op[1]} if k in ("pad_s", "pad_v") and exc is None else set()
         for c in ob["boxchg"]:
             if c[0] not in allowed:
@@ -699,6 +751,19 @@ def oracle_op(i, op, ob, A, B, ops, obs, bad):
             if not all(lo[j] + pad <= x <= hi[j] - pad for x in col) or (lo[j] + pad) not in col or (hi[j] - pad) not in col:
                 bad(i, "box/of_points/tight", "box of %s (padding %s) is [%s, %s] in coordinate %d" % (col, pad, lo[j], hi[j], j))
                 return
+        return
+    if k == "vec_ctor":
+        if exc or r[0] != "vs":
+            bad(i, "fn/vec_ctor/raise", "Vec.%s raised %s" % (op[1], exc))
+            return
+        v1, v2 = r[1]
+        n = int(op[2])
+        want = {"zeros": [0] * n, "X": [1, 0, 0], "Y": [0, 1, 0], "Z": [0, 0, 1]}.get(op[1])
+        if want is not None and (frs(v1) != frs(want) or frs(v2) != frs(want)):
+            bad(i, "fn/vec_ctor/value", "Vec.%s(%s) returned %s and %s" % (op[1], n, v1, v2))
+        elif want is None and (len(v1) != n or len(v2) != n or any(not (0 <= x < 1) for x in v1 + v2)):
+            bad(i, "fn/vec_ctor/random", "Vec.random(%d) returned %s and %s" % (n, v1, v2))
+        A[op[3]], A[op[4]] = frs(v1), frs(v2)
         return
     if k == "unit_cube":
         n, c = int(op[2]), bool(op[3])
@@ -1192,6 +1257,8 @@ def op_uses(op):
         return list(op[2]), [], op[1]
     if k == "normalize":
         return [op[1]], [], None
+    if k == "setcomp":
+        return [op[1]], [], None
     return [], [], None
 
 
@@ -1207,6 +1274,12 @@ def slice_prog(ops, i):
         if o[0] == "seterr":
             keep.add(j)
         elif o[0] == "arr":
+            if o[1] in need_a:
+                keep.add(j)
+        elif o[0] == "vec_ctor":
+            if o[3] in need_a or o[4] in need_a:
+                keep.add(j)
+        elif o[0] == "setcomp":
             if o[1] in need_a:
                 keep.add(j)
         else:
@@ -1269,6 +1342,10 @@ def run(ctx):
         "correspondence + oracle only (no theorem): quad_area, aspect_ratio, distance_to_segment2D, of_mesh, Vec.normalize, "
         "Vec.outer; oracle only (atan2 value / infinite corners): axis_rot_from_z, AABB.infinite; event table only: "
         "match_rotation (scipy), Vec.random/zeros/X/Y/Z/from_complex, __repr__/__and__/__or__",
+        "every call that returns a box (AABB, of_points, of_mesh, unit_cube, infinite, union, intersection) and every Vec "
+        "constructor (zeros, X, Y, Z, random) is also made twice with the same arguments: the results must share no buffer "
+        "(np.shares_memory), the first is modified in place (pad / component write) and the second, and a third made "
+        "afterwards, are looked at again",
         "every array argument is passed in an independently drawn representation (ndarray / Vec view / list / tuple, complex "
         "for det_2x2) where the primitive accepts it",
         "the event table is a syntactic summary (in-place operators, subscript/attribute stores, known mutating methods, "
